@@ -27,10 +27,10 @@ import (
 func init() {
 	tours["slots"] = []func(*core.Result, *core.RNG) (*sim, error){slotsTour}
 	tours["weeks"] = []func(*core.Result, *core.RNG) (*sim, error){weeksTour, manyWeeksTour}
-	tours["restart"] = []func(*core.Result, *core.RNG) (*sim, error){restartTour, restartFaultTour}
-	tours["equip"] = []func(*core.Result, *core.RNG) (*sim, error){equipTour, keyReuseTour, keyReuseBanTour, keyReuseAfterBanTour}
+	tours["restart"] = []func(*core.Result, *core.RNG) (*sim, error){restartTour, restartFaultTour, manyDevicesTour}
+	tours["equip"] = []func(*core.Result, *core.RNG) (*sim, error){equipTour, keyReuseTour, keyReuseBanTour, keyReuseAfterBanTour, manyDevicesTour}
 	tours["register"] = []func(*core.Result, *core.RNG) (*sim, error){registerTour, registerRaceTour, damagedKeyTour, zeroKeyTour, archiveBeforeRegistrationTour}
-	tours["hostile"] = []func(*core.Result, *core.RNG) (*sim, error){hostileTour, shutdownTour, manyWeeksTour}
+	tours["hostile"] = []func(*core.Result, *core.RNG) (*sim, error){hostileTour, shutdownTour, shutdownStalledPeerTour, manyWeeksTour}
 }
 
 func started(res *core.Result, r *core.RNG, name string, now0 uint32, http bool, caps ...uint64) (*sim, error) {
@@ -132,6 +132,7 @@ func weeksTour(res *core.Result, r *core.RNG) (*sim, error) {
 		return s, err
 	}
 	res.Count("weeks.tour")
+	s.allSpellings = true
 	d0, d1 := s.a.Devices[0], s.a.Devices[1]
 	w := s.w
 	for _, now := range []uint32{100, 1000, 2015, 2016, 2017, 3000} {
@@ -290,6 +291,37 @@ func restartTour(res *core.Result, r *core.RNG) (*sim, error) {
 	if !s.restart(s.w.Now + 8300) { // several
 		return s, nil
 	}
+	s.restart(s.w.Now)
+	return s, nil
+}
+
+// more devices than fit any one buffer of a reader (40 records of 148 bytes), a ban in the middle of the
+// file, restarts: every record of the equipment file is read back whole, in order
+func manyDevicesTour(res *core.Result, r *core.RNG) (*sim, error) {
+	s, err := started(res, r, "devices-many", 700, false, 1000)
+	if err != nil {
+		return s, err
+	}
+	res.Count("equip.many-devices")
+	for i := 0; i < 39; i++ {
+		if s.addDevice(uint64(500+i)) == nil {
+			return s, nil // the oracle of authorize has reported it
+		}
+	}
+	s.send(s.a.Devices[33], 700, 77)
+	if !s.restart(s.w.Now) {
+		return s, nil
+	}
+	ea := s.a.Devices[20].Auth
+	ea.Debt++
+	ea.Signature = s.w.Sign(ea.SigningBytes(), s.a.GCA)
+	s.authorize(ea, "conflict-field")
+	s.authorize(s.a.Devices[39].Auth, "duplicate")
+	if !s.restart(s.w.Now) {
+		return s, nil
+	}
+	s.send(s.a.Devices[39], 701, 78)
+	s.send(s.a.Devices[20], 701, 79) // banned
 	s.restart(s.w.Now)
 	return s, nil
 }
@@ -916,6 +948,75 @@ func trunc(b []byte) string {
 		return string(b[:40]) + "..."
 	}
 	return string(b)
+}
+
+// a new device is being announced to an authorized peer that accepts the connection and never answers:
+// shutdown must still come to an end (an error after the shutdown budget is acceptable, waiting for the
+// peer forever is not)
+func shutdownStalledPeerTour(res *core.Result, r *core.RNG) (*sim, error) {
+	s, err := started(res, r, "hostile-shutdown-peer", 60, true, 1000)
+	if err != nil {
+		return s, err
+	}
+	w := s.w
+	ln, lerr := net.Listen("tcp", "127.0.0.1:0")
+	if lerr != nil {
+		return s, nil
+	}
+	var held []net.Conn
+	var hmu sync.Mutex
+	go func() {
+		for {
+			c, err := ln.Accept()
+			if err != nil {
+				return
+			}
+			hmu.Lock()
+			held = append(held, c)
+			hmu.Unlock()
+		}
+	}()
+	release := func() {
+		ln.Close()
+		hmu.Lock()
+		for _, c := range held {
+			c.Close()
+		}
+		hmu.Unlock()
+	}
+	sp := srv.DetKey(r)
+	sas := server.AuthorizedServer{PublicKey: sp.Pub, Location: "127.0.0.1", HttpPort: uint16(ln.Addr().(*net.TCPAddr).Port), TcpPort: 1, UdpPort: 1}
+	sas.GCAAuthorization = glow.Sign(sas.SigningBytes(), s.a.GCA.Priv)
+	sj, _ := json.Marshal(sas)
+	go w.Raw("POST", "/api/v1/authorized-servers", sj)
+	time.Sleep(80 * time.Millisecond)
+	term := w.CoqCase()
+	s.res.Case(map[string]interface{}{"ops": w.Desc}, term, true)
+	s.closedTerm = term
+	s.alive = false
+	ea := s.mkAuth(s.newDevice(1000), s.a.GCA)
+	ej, _ := json.Marshal(ea)
+	go w.Raw("POST", "/api/v1/authorize-equipment", ej)
+	time.Sleep(250 * time.Millisecond)
+	res.Count("shutdown.peer-stalled")
+	done := make(chan string, 1)
+	t0 := time.Now()
+	go func() { done <- w.Close() }()
+	select {
+	case <-done:
+		res.Extra["close_latency_stalled_peer_ms"] = time.Since(t0).Milliseconds()
+		release()
+	case <-time.After(20 * time.Second):
+		s.res.Fail("Close() does not return while a new device is being announced to an authorized peer that accepts the connection and never answers (waited 20 s; the test-mode shutdown budget is 5 s)", "c12-shutdown-blocked-by-peer",
+			map[string]interface{}{"peer": "accepts, never answers", "request": "POST /api/v1/authorize-equipment"})
+		release()
+		select {
+		case <-done:
+		case <-time.After(10 * time.Second):
+			w.Detach()
+		}
+	}
+	return s, nil
 }
 
 // idle and half-sent TCP connections must not keep the server from shutting down (D7)
